@@ -3,10 +3,13 @@ package parser
 import (
 	"bytes"
 	"fmt"
+	"io"
 	"os"
 	"path/filepath"
+	"reflect"
 	"regexp"
 	"runtime"
+	"runtime/debug"
 	"sort"
 	"strconv"
 	"strings"
@@ -139,8 +142,10 @@ type c20Result struct {
 	nodes     []Node
 	err       error
 	panicked  interface{}
-	timeout   bool   // gave up waiting: deadline or memory cap
+	timeout   bool   // gave up waiting: deadline, memory cap or stack cap
 	exhausted string // which bound, for the report
+	recursion bool   // the bound that was hit is the one on goroutine stacks
+	unwound   bool   // the call came back after the configuration directory was taken away: the process can go on
 }
 
 type c20Runner struct {
@@ -157,7 +162,41 @@ type c20Runner struct {
 const (
 	c20Deadline = 60 * time.Second
 	c20HeapCap  = 1 << 30 // bytes of live heap
+	// goroutine stacks of the whole process. The reader at its own limits (257 blocks, 256 levels of import
+	// expansion) needs well under 1 MB; a goroutine that reaches 1 GB is killed by the runtime together with
+	// the process (not recoverable), so a recursion that runs away has to be noticed long before.
+	c20StackCap = 32 << 20
+	c20Unwind   = 30 * time.Second // how long a call is given to come back once its files are gone
 )
+
+// c20AbsMarker stands for the configuration directory in absolute import paths: the op line (and the model)
+// see the marker, the real reader sees the directory of this run.
+const c20AbsMarker = "/VERIFC20ABS"
+
+// An `f` entry whose name contains a slash is another spelling of a real file (`./x`, `../conf/x`, the
+// absolute path, …: what the model's file system answers for that name) unless it is a file of the one
+// sub-directory `sub/`.
+func c20IsAlias(name string) bool {
+	return strings.Contains(name, "/") && !(strings.HasPrefix(name, "sub/") && strings.Count(name, "/") == 1)
+}
+
+func (rn *c20Runner) abs(b []byte) []byte {
+	if !bytes.Contains(b, []byte(c20AbsMarker)) {
+		return b
+	}
+	return bytes.ReplaceAll(b, []byte(c20AbsMarker), []byte(rn.dir))
+}
+
+// unabs puts the marker back into names and arguments (a path that was not consumed by an import).
+func (rn *c20Runner) unabs(ns []Node) {
+	for i := range ns {
+		ns[i].Name = strings.ReplaceAll(ns[i].Name, rn.dir, c20AbsMarker)
+		for j := range ns[i].Args {
+			ns[i].Args[j] = strings.ReplaceAll(ns[i].Args[j], rn.dir, c20AbsMarker)
+		}
+		rn.unabs(ns[i].Children)
+	}
+}
 
 func c20NewRunner(t *testing.T) *c20Runner {
 	base, err := os.MkdirTemp("", "verifc20")
@@ -177,36 +216,98 @@ func (rn *c20Runner) prepare(cs *c20Case) {
 	for _, e := range cs.env {
 		os.Setenv(e[0], e[1])
 	}
-	ents, _ := os.ReadDir(rn.dir)
-	for _, e := range ents {
-		os.Remove(filepath.Join(rn.dir, e.Name()))
-	}
+	rn.wipe()
 	for _, f := range cs.files {
-		if f.name == "" || f.name == "." || f.name == ".." {
-			continue // the directory entries themselves
+		if f.name == "" || f.name == "." || f.name == ".." || c20IsAlias(f.name) {
+			continue // the directory entries themselves; other spellings of a file written below
 		}
-		if err := os.WriteFile(filepath.Join(rn.dir, f.name), f.content, 0o644); err != nil {
+		if strings.HasPrefix(f.name, "sub/") {
+			os.MkdirAll(filepath.Join(rn.dir, "sub"), 0o755)
+		}
+		if err := os.WriteFile(filepath.Join(rn.dir, f.name), rn.abs(f.content), 0o644); err != nil {
 			panic(err)
 		}
 	}
 }
 
+// wipe empties the configuration directory.
+func (rn *c20Runner) wipe() {
+	os.MkdirAll(rn.dir, 0o755)
+	ents, _ := os.ReadDir(rn.dir)
+	for _, e := range ents {
+		os.RemoveAll(filepath.Join(rn.dir, e.Name()))
+	}
+}
+
 func (rn *c20Runner) read(input []byte) c20Result {
-	return rn.watch(func() ([]Node, error) { return Read(bytes.NewReader(input), rn.location) })
+	marked := bytes.Contains(input, []byte(c20AbsMarker))
+	input = rn.abs(input)
+	res := rn.watch(func() ([]Node, error) { return Read(bytes.NewReader(input), rn.location) })
+	if marked && !res.timeout {
+		rn.unabs(res.nodes)
+	}
+	return res
 }
 
 // readTreeCounted runs readTree the way Read does, with a counter of its own for the import budget
 // (Read allocates it and throws it away), and without the environment expansion.
 func (rn *c20Runner) readTreeCounted(input []byte) (c20Result, int) {
 	cnt := 0
+	input = rn.abs(input)
 	res := rn.watch(func() ([]Node, error) {
-		nodes, _, _, err := readTree(bytes.NewReader(input), rn.location, 0, &cnt)
+		nodes, err, _ := c20CallReadTree(bytes.NewReader(input), rn.location, &cnt)
 		return nodes, err
 	})
 	if res.timeout {
 		return res, 0 // the goroutine is still running
 	}
 	return res, cnt
+}
+
+// c20CallReadTree calls the unexported readTree by reflection, so that a change of its parameter list
+// (a further parameter, another order) does not stop the whole harness from compiling: the reader, the
+// location and the budget counter go to the first parameter of their type, everything else (the expansion
+// depth, whatever was added) gets its zero value, as in Read. ok=false: the function has no such parameters
+// any more or returns no tree.
+func c20CallReadTree(r io.Reader, location string, cnt *int) (nodes []Node, err error, ok bool) {
+	fn := reflect.ValueOf(readTree)
+	ft := fn.Type()
+	n := ft.NumIn()
+	if ft.IsVariadic() {
+		n--
+	}
+	args := make([]reflect.Value, n)
+	var haveR, haveLoc, haveCnt bool
+	readerT := reflect.TypeOf((*io.Reader)(nil)).Elem()
+	for i := range args {
+		t := ft.In(i)
+		switch {
+		case !haveR && t.Kind() == reflect.Interface && reflect.TypeOf(r).Implements(t) && t.NumMethod() > 0 && readerT.Implements(t):
+			args[i], haveR = reflect.ValueOf(r), true
+		case !haveLoc && t.Kind() == reflect.String:
+			args[i], haveLoc = reflect.ValueOf(location).Convert(t), true
+		case !haveCnt && t == reflect.TypeOf(cnt):
+			args[i], haveCnt = reflect.ValueOf(cnt), true
+		default:
+			args[i] = reflect.Zero(t)
+		}
+	}
+	if !haveR || !haveLoc {
+		return nil, nil, false
+	}
+	outs := fn.Call(args)
+	found := false
+	for _, o := range outs {
+		switch v := o.Interface().(type) {
+		case []Node:
+			if !found {
+				nodes, found = v, true
+			}
+		case error:
+			err = v
+		}
+	}
+	return nodes, err, found && haveCnt
 }
 
 func (rn *c20Runner) watch(call func() ([]Node, error)) c20Result {
@@ -229,18 +330,50 @@ func (rn *c20Runner) watch(call func() ([]Node, error)) c20Result {
 		case r := <-ch:
 			return r
 		case <-tick.C:
-			if time.Since(start) > c20Deadline {
-				return c20Result{timeout: true, exhausted: fmt.Sprintf("no result after %v", c20Deadline)}
-			}
+			var why string
+			recursion := false
 			var ms runtime.MemStats
 			runtime.ReadMemStats(&ms)
-			if ms.HeapAlloc > c20HeapCap {
+			switch {
+			case time.Since(start) > c20Deadline:
+				why = fmt.Sprintf("no result after %v", c20Deadline)
+			case ms.StackInuse > c20StackCap:
+				why = fmt.Sprintf("goroutine stacks %d MB after %v and growing, no result", ms.StackInuse>>20, time.Since(start).Round(100*time.Millisecond))
+				recursion = true
+			case ms.HeapAlloc > c20HeapCap:
 				runtime.GC() // garbage of earlier cases does not count
 				runtime.ReadMemStats(&ms)
 				if ms.HeapAlloc > c20HeapCap {
-					return c20Result{timeout: true, exhausted: fmt.Sprintf("live heap %d MB after %v and growing, no result", ms.HeapAlloc>>20, time.Since(start).Round(100*time.Millisecond))}
+					why = fmt.Sprintf("live heap %d MB after %v and growing, no result", ms.HeapAlloc>>20, time.Since(start).Round(100*time.Millisecond))
 				}
 			}
+			if why == "" {
+				continue
+			}
+			// The call cannot be stopped from outside. When it runs away THROUGH THE FILES of the configuration
+			// directory (files importing each other), taking the files away makes the next import fail and the
+			// recursion unwinds: the verdict is the same, but the process and the remaining cases survive.
+			rn.wipe()
+			res := c20Result{timeout: true, exhausted: why, recursion: recursion}
+			// (a call that goes on growing is not recursing through the files: no point in waiting until the
+			// runtime kills the process at 1 GB of stack — the caller has to write its report first)
+			giveUpAt := time.Now().Add(c20Unwind)
+			for time.Now().Before(giveUpAt) {
+				select {
+				case <-ch:
+					res.unwound = true
+					res.exhausted += "; the call came back only after the imported files were removed"
+					runtime.GC()
+					debug.FreeOSMemory()
+					return res
+				case <-tick.C:
+					runtime.ReadMemStats(&ms)
+					if ms.StackInuse > 8*c20StackCap || ms.HeapAlloc > 2*c20HeapCap {
+						return res
+					}
+				}
+			}
+			return res
 		}
 	}
 }
@@ -254,18 +387,32 @@ func (rn *c20Runner) giveUp(out *vh.Out) {
 	os.Exit(3)
 }
 
+// runaway reports a call of Read that exceeded the resource bounds and says whether the process can go on.
+func (rn *c20Runner) runaway(out *vh.Out, op string, res c20Result) {
+	sig, what := "C20/timeout", "configuration parsing does not terminate within the resource bounds: "
+	if res.recursion {
+		sig, what = "C20/unbounded-recursion", "configuration parsing recurses without bound: "
+	}
+	out.Violation(sig, op, what+res.exhausted)
+	out.Corr(op, "timeout")
+	out.Stat("outcome=runaway")
+	if !res.unwound {
+		rn.giveUp(out)
+	}
+}
+
 func (rn *c20Runner) fileID(cs *c20Case, path string) int {
 	if path == rn.location {
 		return 0
 	}
 	base := filepath.Base(path)
 	for _, f := range cs.files {
-		if f.name == base {
+		if !c20IsAlias(f.name) && (f.name == base || (f.name != "" && strings.HasPrefix(f.name, "sub/") && filepath.Base(f.name) == base)) {
 			return f.id
 		}
 	}
 	for _, f := range cs.files {
-		if f.name == base+".conf" {
+		if !c20IsAlias(f.name) && (f.name == base+".conf" || (strings.HasPrefix(f.name, "sub/") && filepath.Base(f.name) == base+".conf")) {
 			return f.id
 		}
 	}
@@ -537,7 +684,11 @@ func c20PlainRefs(cs *c20Case) bool {
 
 // c20Expressible: every token of the tree can be written in the quoted syntax and is not subject to
 // further interpretation by the reader (brace, continuation, macro reference, env placeholder).
-func c20Expressible(ns []Node) bool {
+// `{env:` may occur as long as it is inert: no complete placeholder follows it (c20Residue) and no
+// placeholder of a variable of the current environment (whose name may contain `$`) occurs.
+// withResidue: complete placeholders are let through — for the trees that, by the property, should not
+// contain any and are reported for that; printing and reading them again shows the second consequence.
+func c20Expressible(ns []Node, env [][2]string, withResidue bool) bool {
 	for _, n := range ns {
 		if !c20NameOK(n.Name) || n.Name == "import" || n.Macro || n.Snippet {
 			return false
@@ -549,18 +700,78 @@ func c20Expressible(ns []Node) bool {
 			if strings.Contains(a, "$(") && strings.Contains(a, ")") {
 				return false
 			}
-			if strings.Contains(a, "{env:") {
-				return false
+			if strings.Contains(a, "{env:") && !withResidue {
+				if c20Residue(a) != "" {
+					return false
+				}
+				for _, e := range env {
+					if strings.Contains(a, "{env:"+e[0]+"}") {
+						return false
+					}
+				}
 			}
 			if i == len(n.Args)-1 && (a == "}" || a == `\`) {
 				return false
 			}
 		}
-		if !c20Expressible(n.Children) {
+		if !c20Expressible(n.Children, env, withResidue) {
 			return false
 		}
 	}
 	return true
+}
+
+// ---- "no environment placeholder remains" (round 9)
+//
+// A placeholder is `{env:` + a name + `}`. The reader replaces the placeholders of the variables that are set
+// and removes the others; a name is whatever stands between — anything but `$` (the reader's own notion:
+// braces and blanks included, which is what makes nested and spliced forms disappear as a whole). What the
+// property promises about every string of a returned tree: no complete placeholder is left, wherever the
+// string came from (main file, snippet body, imported file, macro value) and however it was assembled.
+// Stated here with a loop of its own, not with the regexp of the code under test.
+func c20Residue(s string) string {
+	for i := 0; i+5 <= len(s); i++ {
+		if !strings.HasPrefix(s[i:], "{env:") {
+			continue
+		}
+		for j := i + 5; j < len(s) && s[j] != '$'; j++ {
+			if s[j] == '}' && j > i+5 {
+				return s[i : j+1]
+			}
+		}
+	}
+	return ""
+}
+
+func c20TreeResidue(ns []Node) string {
+	for _, n := range ns {
+		if r := c20Residue(n.Name); r != "" {
+			return "environment placeholder " + strconv.Quote(r) + " left in directive name " + strconv.Quote(n.Name)
+		}
+		for _, a := range n.Args {
+			if r := c20Residue(a); r != "" {
+				return "environment placeholder " + strconv.Quote(r) + " left in argument " + strconv.Quote(a) + " of directive " + strconv.Quote(n.Name)
+			}
+		}
+		if s := c20TreeResidue(n.Children); s != "" {
+			return s
+		}
+	}
+	return ""
+}
+
+func c20HasEnvText(ns []Node) bool {
+	for _, n := range ns {
+		for _, a := range n.Args {
+			if strings.Contains(a, "{env:") {
+				return true
+			}
+		}
+		if c20HasEnvText(n.Children) {
+			return true
+		}
+	}
+	return false
 }
 
 func c20SameShape(a, b []Node) bool {
@@ -620,9 +831,7 @@ func (rn *c20Runner) runCase(out *vh.Out, cs *c20Case, withPrint bool, tag strin
 	out.Stat("gen=" + tag)
 	switch {
 	case res.timeout:
-		out.Violation("C20/timeout", op, "configuration parsing does not terminate within the resource bounds: "+res.exhausted)
-		out.Corr(op, "timeout")
-		rn.giveUp(out)
+		rn.runaway(out, op, res)
 		return
 	case res.panicked != nil:
 		out.Violation("C20/panic", op, fmt.Sprint(res.panicked))
@@ -675,14 +884,24 @@ func (rn *c20Runner) runCase(out *vh.Out, cs *c20Case, withPrint bool, tag strin
 	if len(cs.obls) != 0 {
 		c20CheckObls(out, op, cs, res.nodes)
 	}
+	residue := c20TreeResidue(res.nodes)
+	if residue != "" {
+		out.Violation("C20/placeholder-residue", op, residue)
+		out.Stat("placeholder-residue=LEFT")
+	} else {
+		out.Stat("placeholder-residue=none")
+	}
 	var pr strings.Builder
 	c20Print(res.nodes, &pr)
 	if withPrint {
 		out.Corr("C20 print "+cs.opArgs(), "ok "+vh.HexRunes(pr.String()))
 	}
-	if !c20Expressible(res.nodes) {
+	if !c20Expressible(res.nodes, cs.env, residue != "") {
 		out.Stat("roundtrip=skipped-inexpressible")
 		return
+	}
+	if c20HasEnvText(res.nodes) {
+		out.Stat("roundtrip=with-inert-env-text")
 	}
 	if depth > c20NestLimit {
 		out.Stat("roundtrip=skipped-too-deep")
@@ -692,7 +911,7 @@ func (rn *c20Runner) runCase(out *vh.Out, cs *c20Case, withPrint bool, tag strin
 	switch {
 	case res2.timeout || res2.panicked != nil:
 		out.Violation("C20/roundtrip", op, fmt.Sprintf("re-parse of the printed tree crashed or hung: %v %s", res2.panicked, res2.exhausted))
-		if res2.timeout {
+		if res2.timeout && !res2.unwound {
 			rn.giveUp(out)
 		}
 	case res2.err != nil:
@@ -1007,9 +1226,7 @@ func (rn *c20Runner) runCharge(out *vh.Out, cs *c20Case, tag string) {
 	out.Stat("gen=" + tag + "[charge]")
 	switch {
 	case res.timeout:
-		out.Violation("C20/timeout", op, "configuration parsing does not terminate within the resource bounds: "+res.exhausted)
-		out.Corr(op, "timeout")
-		rn.giveUp(out)
+		rn.runaway(out, op, res)
 		return
 	case res.panicked != nil:
 		out.Violation("C20/panic", op, fmt.Sprint(res.panicked))
@@ -1764,7 +1981,7 @@ func c20GenTree(r *vh.Rng, depth int) []Node {
 }
 
 func (rn *c20Runner) runTree(out *vh.Out, cs *c20Case, tree []Node) {
-	if !c20Expressible(tree) {
+	if !c20Expressible(tree, cs.env, false) {
 		out.Stat("tree=inexpressible")
 		return
 	}
@@ -1778,7 +1995,7 @@ func (rn *c20Runner) runTree(out *vh.Out, cs *c20Case, tree []Node) {
 	switch {
 	case res.timeout || res.panicked != nil:
 		out.Violation("C20/roundtrip", op, fmt.Sprintf("parse of a printed tree crashed or hung: %v %s", res.panicked, res.exhausted))
-		if res.timeout {
+		if res.timeout && !res.unwound {
 			rn.giveUp(out)
 		}
 	case res.err != nil:
@@ -1922,12 +2139,12 @@ func TestVerifC20Parse(t *testing.T) {
 		res := rn.read(b)
 		if res.err != nil || res.panicked != nil || res.timeout {
 			out.Violation("C20/shipped-does-not-parse", "C20 parse "+cs.opArgs(), fmt.Sprint(res.err, res.panicked, res.timeout))
-			if res.timeout {
+			if res.timeout && !res.unwound {
 				rn.giveUp(out)
 			}
 		}
 		rn.runCase(out, cs, true, "shipped")
-		if !c20Expressible(res.nodes) {
+		if !c20Expressible(res.nodes, cs.env, false) {
 			out.Violation("C20/shipped-inexpressible", "C20 parse "+cs.opArgs(), "the shipped file's tree should be covered by the round-trip theorem")
 		}
 	}
@@ -1948,6 +2165,14 @@ func TestVerifC20Parse(t *testing.T) {
 	}
 	for _, s := range c20Fixed {
 		rn.runCharge(out, &c20Case{input: []byte(s), files: c20DirEntries()}, "fixed")
+	}
+	for _, cs := range c20ImportsFixed() {
+		rn.runCase(out, cs, false, "imports/fixed")
+	}
+	for _, s := range c20EnvNestFixed {
+		for _, env := range [][][2]string{nil, {{"H", "example.org"}}, {{"H", ""}, {"U2", "{env:"}}, {{"HOME", "/root"}, {"H", "{env:UNSET}"}}} {
+			rn.runCase(out, &c20Case{input: []byte(s), env: env, files: c20DirEntries()}, true, "env-nest/fixed")
+		}
 	}
 
 	for i := 0; i < n; i++ {
@@ -1979,6 +2204,21 @@ func TestVerifC20Parse(t *testing.T) {
 			if !c20PlainRefs(cs) {
 				out.Violation("C20/harness-self-check", "C20 parse "+cs.opArgs(), "embedded-ref generator produced a case the residual-reference rule does not apply to")
 			}
+			rn.runCase(out, cs, i%3 == 0, tag)
+			continue
+		}
+		if i%4000 == 1057 {
+			L := 250 + r.Intn(13)
+			rn.runCase(out, c20LongChain(L, r.Intn(4)&^1), false, "imports/long-chain")
+			continue
+		}
+		if i%200 == 57 {
+			cs, tag := c20GenImports(r, out)
+			rn.runCase(out, cs, i%3 == 0, tag)
+			continue
+		}
+		if i%20 == 17 {
+			cs, tag := c20GenEnvNest(r, out)
 			rn.runCase(out, cs, i%3 == 0, tag)
 			continue
 		}
